@@ -246,7 +246,8 @@ def handle (args : List String) : String :=
       let ks := match v.kind with
         | .unknown => "u" | .string => "s" | .nameRef => "n" | .indexed => "i" | .assoc => "a"
         | .keepValue => "k"
-      toHex name ++ " " ++ ks ++ " " ++ (match appendKind v.kind with | .ok _ => "ok" | .panic => "panic")
+      toHex name ++ " " ++ ks ++ " " ++
+        (match appendKind (prevFor env (env st)).kind with | .ok _ => "ok" | .panic => "panic")
     | _, _ => "bad-op"
   | _ => "bad-op"
 
